@@ -721,3 +721,11 @@ def c01_h(ctx):
     ctx.check(ok, er, 'result outputs are not the state dict itself', 'Sample(outputs=<new dict>)',
               'the result object is given the sampler\'s own state dict', fn=er,
               node=rr[0] if rr else er.node)
+
+
+
+@obligation('C01-i', 'T6 T11', 'a threshold of exactly 0 (exact matching on discrete data) is a threshold: it is never tested by truth value', floor=1,
+            necessary='with `if not threshold` a zero threshold is treated as absent: the stopping rule and the acceptance test disagree')
+def c01_i(ctx):
+    from .base import zero_is_valid_obligation
+    zero_is_valid_obligation(ctx, ['threshold'])
